@@ -675,6 +675,7 @@ func runC09(w *World, r *Report) {
 
 	// ---- 4. error path ----
 	c09ErrorPath(w, r)
+	c09CommentDelivery(w, r)
 	r.assume("comments are only recoverable through hidden-channel queries at adjacent default-channel tokens (LINE_COMMENT -> channel(HIDDEN))")
 }
 
